@@ -23,7 +23,7 @@ def funcHashes : List (String × String) := [
   ("provider.LogoutResponse.makeSuccessfulLogoutResponse", "a427b98e74995523"),
   ("provider.makeLogoutResponse", "a675d5649d30eb6f"),
   ("provider.getAuthRequestFromRequest", "b2cb4b9adedc17cc"),
-  ("provider.getLogoutRequestFromRequest", "970a806fbf27f102"),
+  ("provider.getLogoutRequestFromRequest", "b33cb62b475f2797"),
   ("provider.verifyPostSignature", "4ee00ad1f9f5c5c5"),
   ("provider.IdentityProvider.GetMetadata", "5080bbc904a22921"),
   ("provider.IdentityProvider.GetEntityID", "79c6ea89b28ee605"),
@@ -103,11 +103,11 @@ def sloChain : Chain := {
     { kind := "WithLogicStep", calls := ["getLogoutRequestFromRequest"], fail := "logout:StatusCodeRequestDenied", hash := "916161946aab0004" },
     { kind := "WithLogicStep", calls := ["xml.DecodeLogoutRequest"], fail := "logout:StatusCodeRequestDenied", hash := "bf80b24fe133afc3" },
     { kind := "WithLogicStep", calls := ["checkIfRequestTimeIsStillValid"], fail := "logout:StatusCodeRequestDenied", hash := "3a8a3606a8d892b2" },
-    { kind := "WithLogicStep", calls := ["p.GetServiceProvider"], fail := "logout:StatusCodeRequestDenied", hash := "b3b7368b601907a6" },
+    { kind := "WithLogicStep", calls := ["p.GetServiceProvider"], fail := "logout:StatusCodeRequestDenied", hash := "fc62e37cee0725a7" },
     { kind := "WithValueStep", calls := [], fail := "", hash := "156de38ef1cd996e" }
   ],
   pre := "f3e583c7db75ebc9",
-  post := "34f2529e1bd0f86a" }
+  post := "bd570e7b4b670cb7" }
 
 def aqChain : Chain := {
   steps := [
